@@ -4,7 +4,14 @@ case = {"paras": [{"fields":   [[name, [first, [cont, ...]]], ...],
                    "comments": [[pos, text], ...],   comment line "#"+text before payload line pos
                                                      (pos is taken modulo number of lines + 1)
                    "armor":    null | {"headers": [...], "sig_headers": [...], "sig": [...],
-                                       "gap": bool, "trail": blanks}}, ...],
+                                       "gap": bool, "trail": blanks,
+                                       "pre": [text...]},   (optional) comment lines directly in
+                                                            front of the armor header line
+                   "refused":  [{"at": k, "key": "new"|"existing"|"later", "index": i,
+                                 "kind": "trailing-newline"|"empty-line"|"unindented-continuation",
+                                 "via": "setitem"|"update"}, ...]}, ...],
+                                                     (optional) assignments that must be refused, attempted
+                                                     after k (mod fields + 1) fields have been assigned
         "layout": {"lead": n,               blank lines before the first paragraph
                    "lead_free": [text...],  free-standing comment block + blank line at the very start
                    "seps": [{"blank": n>=1, "free": [text...], "blank2": n>=1}, ...],
@@ -14,18 +21,30 @@ case = {"paras": [{"fields":   [[name, [first, [cont, ...]]], ...],
                    "final_newline": bool,
                    "ws": [blanks, ...],     (optional) the k-th blank line of the layout is
                                             ws[k % len]: empty or SPACE/TAB only; default: all empty
+                   "eols": [eol, ...],      (optional) line k of a document ends in eols[k % len]:
+                                            LF or CR LF; default: LF everywhere
                    "files": bool,           (optional) also read through real text/binary files
                    "codecs": [codec, ...]}} (optional) also read through text-mode file objects with
                                             these codecs (skipped if the codec cannot express the text)
    or  {"kind": "aligned", "unit": u, "n": paragraphs, "target": place, "measure": "bytes"|"chars",
         "codecs": [...]}                    a big plain document, see "big documents" below
 
-Every paragraph is built by assignment into an empty ``Deb822`` and dumped.  Two documents are
-assembled from the dumps: the *plain* one (dumps joined by one empty line) and the *full* one
+Every paragraph is built by assignment into an empty ``Deb822`` and dumped.  If the case lists
+refused assignments the paragraph is built a second time by a caller who, in between, tries to
+assign values that ``Deb822`` refuses (a value ending in a newline, holding an empty line, or with
+a second line that does not start with a blank - to a name the paragraph never gets, to a field
+assigned before, to a field assigned afterwards), catches the ``ValueError`` and carries on: that
+object must hold and dump exactly what the first one does, and it is the one used from then on.
+
+Two documents are assembled from the dumps: the *plain* one (dumps joined by one empty line) and the *full* one
 (the case's layout, comment lines and clearsign armor all applied).  Each document is presented
 in eight input forms (plus real files, plus text-mode file objects in other codecs) to
 ``Deb822.iter_paragraphs`` and, if it has one paragraph, to the constructors of ``Deb822``,
-``Dsc`` and ``Changes``.  Every file-object form is also handed over *advanced*: the lines before
+``Dsc`` and ``Changes``.  The lines of a document end in LF or, if the layout says so, in CR LF
+(all of them or some of them); the forms that keep terminators (lists of lines with newlines,
+StringIO, BytesIO, binary files, and additionally text layers opened with ``newline=''``) then hand
+CR LF to the reader, the others (str, bytes, lists without newlines, default text layers) do not.
+Every file-object form is also handed over *advanced*: the lines before
 the first paragraph, or everything up to the gap before the last paragraph, already taken with
 ``readline()``; the reader must then find the remaining paragraphs.  Every reading must give the
 generated ``[name, first.strip(blanks) + continuation lines verbatim]`` lists, in order, without a
@@ -52,7 +71,13 @@ RULE = ("a case is a document of 1..4 paragraphs x 1..5 fields (Policy-valid nam
         "case; values = first line of printable text/TAB with any blanks around it + 0..3 continuation "
         "lines starting with a blank and holding non-blank text) plus a configuration: comment lines at "
         "chosen or at all line boundaries, free-standing comment blocks between paragraphs, synthetic "
-        "clearsign armor per paragraph, leading/trailing/multiple blank lines (in half of the cases some of "
+        "clearsign armor per paragraph (in a third of them with comment lines directly in front of the armor "
+        "header line), LF or - four cases in nine - CR LF line terminators (on all lines or mixed with LF; "
+        "then also read through text layers opened with newline=''), in a third of the paragraphs 1..3 "
+        "assignments that must be refused (value ending in a newline / with an empty line / with an unindented "
+        "second line, for a name never assigned, assigned before or assigned afterwards, by d[k] = v or "
+        "d.update) attempted while the paragraph is built, the ValueError caught and the object used as if "
+        "nothing had happened, leading/trailing/multiple blank lines (in half of the cases some of "
         "them hold SPACE/TAB), final newline or not; "
         "each case is read plain and fully configured in 8 input forms (str, bytes, list of lines with "
         "and without newline, list of bytes lines, StringIO, BytesIO, TextIOWrapper) by iter_paragraphs "
@@ -63,7 +88,9 @@ RULE = ("a case is a document of 1..4 paragraphs x 1..5 fields (Policy-valid nam
         "more. Enumerated: 21 boundary first "
         "lines x all sequences of 0..2 of 16 boundary continuation lines, commented at every line boundary "
         "and armored; every legal field-name character in first and later position; every gap layout of "
-        "0..2 leading and 1..3 separating lines from {empty, SPACE, TAB}, plain and clearsigned; big documents "
+        "0..2 leading and 1..3 separating lines from {empty, SPACE, TAB}, plain and clearsigned; 357 boundary values "
+        "in clearsigned, fully commented paragraphs with CR LF (or alternating CR LF / LF) terminators; 72 placements "
+        "of one refused assignment in a three-field paragraph; big documents "
         "(140 KiB - 1 MiB) whose line ends, separator lines, line middles or character middles lie on every "
         "multiple of 4096 / 1024 (thorough: also 1000, 5000, 8192) bytes or characters, read in all forms "
         "including real files and a UTF-16 text file. "
@@ -86,6 +113,16 @@ ASSUMPTIONS = [
     "the unchanged tree: _gpg_multivalued re-encodes every line with the file's codec and decodes with the "
     "encoding argument, default UTF-8, so Dsc(open(p, encoding='iso-8859-15')) mis-decodes and a UTF-16 file "
     "cannot work at all - reported, not asserted)",
+    "CR LF is a line terminator of the input forms, not part of a value: the library removes b'\\r\\n' from "
+    "every line on purpose and every reading of the unchanged tree agrees (probed in all forms, all four readers, "
+    "with comments and armor); a CR alone is never generated (str.splitlines and binary files disagree about it)",
+    "comment lines directly in front of the armor header line (no blank line in between) belong to the "
+    "paragraph's configuration 'comments interleaved'; Dsc/Changes read such documents in every form on the "
+    "unchanged tree (the comment block followed by a blank line remains excluded for them, see above); no "
+    "comment line is put between armor header lines or inside the signature block",
+    "refused assignments: only the error path is used here - an attempt that raises ValueError must leave no "
+    "trace in keys(), items() and dump(); that the ValueError is raised at all is property C08's claim, a case "
+    "in which an attempt is accepted is labelled 'unrefused-attempt-not-judged' and the object dropped",
     "a file object from which k lines have been taken with readline() stands at line k (io module semantics); "
     "the reader is expected to go on from there",
     "the geometry of the big documents (which offset a line end falls on) is computed assuming that dump() "
@@ -99,12 +136,18 @@ _EXH = ("21 boundary first lines x every sequence of 0..2 continuation lines fro
 _EXH_GAPS = ("every gap layout of a two-paragraph document with 0..2 leading and 1..3 separating blank lines, "
              "each line empty, one SPACE or one TAB (13 x 39), plain and clearsigned; one paragraph with 1..2 "
              "such leading and 2 trailing lines (12 x 9), plain and clearsigned")
+_EXH_EOL = ("21 boundary first lines x every sequence of 0..1 continuation lines from 16 boundary lines (357 values) in "
+            "a two-field clearsigned paragraph whose lines all end in CR LF, or alternately in CR LF and LF, with a "
+            "comment line at every line boundary and in front of the armor header line (714 documents)")
+_EXH_REFUSED = ("one refused assignment at each of the 4 places of a three-field paragraph x 3 kinds of spoilt value x "
+                "key never assigned / assigned before / assigned afterwards x d[k] = v / d.update (72 cases)")
 _EXH_BIG = ("documents of 36 paragraphs x 4096 and of 140 paragraphs x 1024 bytes (or characters) in which every "
             "multiple of that unit lies at one of 8 chosen places of a paragraph (behind the separator line, behind "
             "the first field, behind the first line of a multi-line value, between and behind continuation lines, "
             "behind the last field, inside a line, inside a 4-byte character): 30 documents of 140-144 KiB")
 _EXH_BIG_T = _EXH_BIG + "; the same for units of 1000 and 5000 (140-150 KiB) and 8192 (1 MiB): 75 documents"
-EXHAUSTIVE = {"quick": "; ".join([_EXH, _EXH_GAPS, _EXH_BIG]), "thorough": "; ".join([_EXH, _EXH_GAPS, _EXH_BIG_T])}
+EXHAUSTIVE = {"quick": "; ".join([_EXH, _EXH_GAPS, _EXH_EOL, _EXH_REFUSED, _EXH_BIG]),
+              "thorough": "; ".join([_EXH, _EXH_GAPS, _EXH_EOL, _EXH_REFUSED, _EXH_BIG_T])}
 BUDGET = {"quick": 200, "thorough": 1500}
 
 BEGIN_MSG = "-----BEGIN PGP SIGNED MESSAGE-----"
@@ -117,6 +160,12 @@ SIG_HEADERS = ["Version: GnuPG v1.4.3 (GNU/Linux)", "Comment: Signed by Adeodato
 # codecs of text-mode file objects (besides UTF-8); the single-byte ones cannot express every document
 CODECS = ["utf-16", "utf-16-le", "utf-16-be", "utf-32", "utf-8-sig", "iso-8859-15", "cp1252", "iso-8859-1"]
 SINGLE_BYTE = frozenset(["iso-8859-15", "cp1252", "iso-8859-1"])
+# line terminators of a document: the layout's "eols" list is cycled over the lines
+EOLS = ("\n", "\r\n")
+# assignments that a paragraph must refuse (ValueError), made while it is being built
+REFUSED_KINDS = ("trailing-newline", "empty-line", "unindented-continuation")
+REFUSED_KEYS = ("new", "existing", "later")
+REFUSED_VIA = ("setitem", "update")
 _header_re = re.compile(r"^[A-Za-z]+: \S.*$")
 _b64_re = re.compile(r"^[A-Za-z0-9+/=]+$")
 
@@ -141,7 +190,76 @@ def valid_armor(a):
             and isinstance(a.get("sig_headers"), list) and all(isinstance(h, str) and _header_re.match(h) and G.is_text(h) for h in a["sig_headers"])
             and isinstance(a.get("sig"), list) and all(isinstance(l, str) and _b64_re.match(l) for l in a["sig"])
             and isinstance(a.get("gap"), bool)
-            and isinstance(a.get("trail"), str) and a["trail"].strip(" \t") == "")
+            and isinstance(a.get("trail"), str) and a["trail"].strip(" \t") == ""
+            and _comment_texts(a.get("pre", [])))
+
+
+def valid_refused(r):
+    return (isinstance(r, dict) and _is_int(r.get("at"), 0, 10 ** 6) and r.get("key") in REFUSED_KEYS
+            and _is_int(r.get("index"), 0, 10 ** 6) and r.get("kind") in REFUSED_KINDS
+            and r.get("via", "setitem") in REFUSED_VIA)
+
+
+def refused_plan(fields, refused, ordered=True):
+    """[(number of fields assigned before the attempt, key, value that must be refused, via, kind of key)]
+
+    ``at`` is taken modulo len(fields) + 1.  The key is a name that the paragraph never gets
+    ("new"), a field that has been assigned already ("existing") or one that will be assigned
+    afterwards ("later"); without such a field it is a new name.  The value is a legal value
+    of the domain spoilt in one way: a newline appended, an empty line put in, or a second line
+    that does not start with a blank.
+    """
+    names = set(n.lower() for n, _ in fields)
+    plan = []
+    for j, r in enumerate(refused):
+        at = r["at"] % (len(fields) + 1)
+        pool = {"existing": fields[:at], "later": fields[at:], "new": []}[r["key"]]
+        if pool:
+            key, v = pool[r["index"] % len(pool)]
+            base = G.value_string(v)
+        else:
+            key = "X-Refused-%d" % j
+            while key.lower() in names:
+                key += "x"
+            base = "refused"
+        first = base.split("\n")[0]
+        bad = {"trailing-newline": base + "\n",
+               "empty-line": first + "\n\n second",
+               "unindented-continuation": first + "\nInjected: yes"}[r["kind"]]
+        plan.append((at, key, bad, r.get("via", "setitem"), r["key"] if pool else "new"))
+    if ordered:
+        plan.sort(key=lambda t: t[0])      # stable: attempts at the same place keep their order
+    return plan
+
+
+def build_paragraph(fields, plan=()):
+    """(the Deb822 built by assignment, number of attempts that were not refused)"""
+    d = Deb822()
+    accepted = 0
+
+    def attempts(at):
+        n = 0
+        for a, key, bad, via, _ in plan:
+            if a != at:
+                continue
+            try:
+                if via == "update":
+                    d.update({key: bad})
+                else:
+                    d[key] = bad
+                n += 1
+            except ValueError:
+                pass                        # the caller catches the error and carries on
+        return n
+
+    for i, (n, v) in enumerate(fields):
+        accepted += attempts(i)
+        try:
+            d[n] = G.value_string(v)
+        except ValueError as e:
+            raise Violation("assignment-rejected", "d[%r] = %r raised ValueError(%s)" % (n, G.value_string(v), e))
+    accepted += attempts(len(fields))
+    return d, accepted
 
 
 def valid_case(case):
@@ -155,6 +273,9 @@ def valid_case(case):
         if not (isinstance(cs, list) and all(isinstance(c, list) and len(c) == 2 and _is_int(c[0], 0, 10 ** 6)
                                              for c in cs) and _comment_texts([c[1] for c in cs])):
             return False
+        rs = p.get("refused", [])
+        if not (isinstance(rs, list) and len(rs) <= 16 and all(valid_refused(r) for r in rs)):
+            return False
     lay = case["layout"]
     if not (_is_int(lay.get("lead"), 0, 5) and _is_int(lay.get("trail"), 0, 5)
             and isinstance(lay.get("final_newline"), bool) and _comment_texts(lay.get("lead_free"))
@@ -166,6 +287,9 @@ def valid_case(case):
         return False
     codecs = lay.get("codecs", [])
     if not (isinstance(codecs, list) and all(isinstance(c, str) and c in CODECS for c in codecs)):
+        return False
+    eols = lay.get("eols", ["\n"])
+    if not (isinstance(eols, list) and 1 <= len(eols) <= 8 and all(e in EOLS for e in eols)):
         return False
     for s in lay["seps"]:
         if not (isinstance(s, dict) and _is_int(s.get("blank"), 1, 5) and _is_int(s.get("blank2"), 1, 5)
@@ -324,6 +448,9 @@ def assemble(case, para_lines, layout=True, comments=True, armor=True):
         pl = _interleave(para_lines[i], p["comments"]) if comments else list(para_lines[i])
         if armor and p["armor"] is not None:
             pl = _wrap(pl, p["armor"])
+            if comments:
+                # comment lines directly in front of the armor header line
+                pl = ["#" + t for t in p["armor"].get("pre", [])] + pl
         doc += pl
     final_newline = lay["final_newline"] if layout else True
     if layout and final_newline:
@@ -349,8 +476,8 @@ class TmpFiles(object):
             f.write(raw)
         return path
 
-    def open(self, path, binary, codec="utf-8"):
-        f = open(path, "rb") if binary else open(path, "r", encoding=codec)
+    def open(self, path, binary, codec="utf-8", newline=None):
+        f = open(path, "rb") if binary else open(path, "r", encoding=codec, newline=newline)
         self.opened.append(f)
         return f
 
@@ -362,13 +489,20 @@ class TmpFiles(object):
         return False
 
 
-def forms(lines, final_newline, tmp=None, codecs=()):
+def terminated(lines, final_newline, eols=("\n",)):
+    """The lines with their terminators: line k ends in eols[k % len(eols)], the last one in
+    nothing if there is no final newline."""
+    out = [l + eols[k % len(eols)] for k, l in enumerate(lines)]
+    if not final_newline and out:
+        out[-1] = lines[-1]
+    return out
+
+
+def forms(lines, final_newline, tmp=None, codecs=(), eols=("\n",)):
     """[(name, factory, is a file object?, codec of a non-UTF-8 text layer or None)]"""
-    text = "\n".join(lines) + ("\n" if final_newline else "")
+    with_nl = terminated(lines, final_newline, eols)
+    text = "".join(with_nl)
     raw = text.encode("utf-8")
-    with_nl = [l + "\n" for l in lines]
-    if not final_newline and with_nl:
-        with_nl[-1] = with_nl[-1][:-1]
     raw_nl = [l.encode("utf-8") for l in with_nl]
     out = [
         ("str", lambda: text, False, None),
@@ -381,10 +515,17 @@ def forms(lines, final_newline, tmp=None, codecs=()):
         ("TextIOWrapper", lambda: io.TextIOWrapper(io.BytesIO(raw), encoding="utf-8"), True, None),
     ]
     files = tmp is not None and tmp.enabled
+    crlf = "\r\n" in eols
+    if crlf:
+        # a text layer that does not translate line endings hands out the lines as they are
+        out.append(("TextIOWrapper/newline=''",
+                    lambda: io.TextIOWrapper(io.BytesIO(raw), encoding="utf-8", newline=""), True, None))
     if files:
         path = tmp.store(raw)
         out.append(("text-file", lambda: tmp.open(path, False), True, None))
         out.append(("binary-file", lambda: tmp.open(path, True), True, None))
+        if crlf:
+            out.append(("text-file/newline=''", lambda: tmp.open(path, False, newline=""), True, None))
     # text-mode file objects whose codec is not UTF-8: the text layer hands out str lines
     for codec in codecs:
         try:
@@ -430,10 +571,10 @@ def _advanced(make, k):
     return f
 
 
-def read_all(lines, final_newline, expected, single, gpg_classes, tmp=None, codecs=(), cuts=()):
+def read_all(lines, final_newline, expected, single, gpg_classes, tmp=None, codecs=(), cuts=(), eols=("\n",)):
     """All readings of one document that differ from what they must give: [(reader, form, got, want)]."""
     bad = []
-    for fname, make, is_file, codec in forms(lines, final_newline, tmp, codecs):
+    for fname, make, is_file, codec in forms(lines, final_newline, tmp, codecs, eols):
         got = [_items(p) for p in Deb822.iter_paragraphs(make())]
         if got != expected:
             bad.append(("iter_paragraphs", fname, got, expected))
@@ -474,16 +615,29 @@ def check(case):
     expected = [[[n, G.normalised(v)] for n, v in p["fields"]] for p in paras]
 
     para_lines = []
+    not_refused = 0
     for p in paras:
-        d = Deb822()
-        for n, v in p["fields"]:
-            try:
-                d[n] = G.value_string(v)
-            except ValueError as e:
-                raise Violation("assignment-rejected", "d[%r] = %r raised ValueError(%s)" % (n, G.value_string(v), e))
+        d, _ = build_paragraph(p["fields"])
         text = d.dump()
         if not isinstance(text, str):
             raise Violation("dump-not-str", "dump() returned %s" % short(text))
+        plan = refused_plan(p["fields"], p.get("refused", []))
+        if plan:
+            # The same paragraph built by a caller who also tries assignments that are refused,
+            # catches the ValueError and carries on: it must be the paragraph built without them.
+            # (An attempt that is NOT refused is not this property's business: such a case says
+            # nothing about the error path and the object is dropped.)
+            d2, accepted = build_paragraph(p["fields"], plan)
+            not_refused += accepted
+            if not accepted:
+                text2 = d2.dump()
+                if text2 != text or _items(d2) != _items(d) or list(d2.keys()) != list(d.keys()):
+                    raise Violation("refused-assignment-leaves-trace",
+                                    "paragraph built from %s with the refused attempts %s (fields assigned before, "
+                                    "key, value, how) dumps %s and holds %s; without the attempts %s"
+                                    % (short(p["fields"], 300), short(plan, 300), short(text2, 300),
+                                       short(_items(d2), 300), short(text, 300)))
+                d = d2                       # normal use goes on with that object
         tio, bio = io.StringIO(), io.BytesIO()
         d.dump(tio, text_mode=True)
         d.dump(bio)
@@ -513,19 +667,22 @@ def check(case):
 
     single = len(paras) == 1
     codecs = lay.get("codecs", [])
+    eols = lay.get("eols", ["\n"])
     has_comments = bool(lay["lead_free"]) or any(p["comments"] for p in paras) or \
         (len(paras) > 1 and any(s["free"] for s in lay["seps"]))
     has_armor = any(p["armor"] is not None for p in paras)
+    pre_armor = any(p["armor"] is not None and p["armor"].get("pre") for p in paras)
+    has_comments = has_comments or pre_armor
     plain, plain_nl, plain_cuts = assemble(case, para_lines, False, False, False)
     full, full_nl, full_cuts = assemble(case, para_lines, True, True, True)
 
     regen = None
     with warnings.catch_warnings(record=True) as caught, TmpFiles(bool(lay.get("files"))) as tmp:
         warnings.simplefilter("always")
-        bad0 = read_all(plain, plain_nl, expected, single, True, tmp, codecs, plain_cuts)
+        bad0 = read_all(plain, plain_nl, expected, single, True, tmp, codecs, plain_cuts, eols)
         bad1 = []
         if (full, full_nl) != (plain, plain_nl):
-            bad1 = read_all(full, full_nl, expected, single, not lay["lead_free"], tmp, codecs, full_cuts)
+            bad1 = read_all(full, full_nl, expected, single, not lay["lead_free"], tmp, codecs, full_cuts, eols)
         if bad0 or bad1:
             scope = _scope(case, para_lines, expected, single, bad0, bad1)
         else:
@@ -538,7 +695,7 @@ def check(case):
     if scope is not None:
         which, bad, lines, nl = ("plain", bad0, plain, plain_nl) if bad0 else ("configured", bad1, full, full_nl)
         rname, fname, got, want = bad[0]
-        text = "\n".join(lines) + ("\n" if nl else "")
+        text = "".join(terminated(lines, nl, eols))
         raise Violation("%s/%s" % (symptom(want, got), scope),
                         "%s document %s read by %s as %s gives %s, expected %s (%d of the readings of this "
                         "document differ: %s)" % (which, _excerpt(text), rname, fname, short(got, 400),
@@ -610,6 +767,17 @@ def check(case):
         labels.append("plain-only")
     if lay.get("files"):
         labels.append("real-files")
+    if pre_armor:
+        labels.append("comment-before-armor-header")
+    if "\r\n" in eols:
+        labels.append("line-terminator:" + ("CRLF" if "\n" not in eols else "CRLF-and-LF-mixed"))
+        if multiline:
+            labels.append("CRLF+multi-line-value")
+    for p in paras:
+        for r, step in zip(p.get("refused", []), refused_plan(p["fields"], p.get("refused", []), ordered=False)):
+            labels.append("refused-assignment:%s-key/%s/%s" % (step[4], r["kind"], step[3]))
+    if not_refused:
+        labels.append("unrefused-attempt-not-judged")
     gap_ws = [l for l in full if l != "" and l.strip(G.BLANKS) == ""]
     if gap_ws:
         labels.append("whitespace-only-gap-line")
@@ -653,6 +821,12 @@ def _scope(case, para_lines, expected, single, bad0, bad1):
             return "text-file-codec"
         return "form-dependent"
     codecs = case["layout"].get("codecs", [])
+    eols = case["layout"].get("eols", ["\n"])
+    if "\r\n" in eols:
+        # does the same document read well when every line ends in LF?
+        lines, nl, cuts = assemble(case, para_lines, *((False, False, False) if bad0 else (True, True, True)))
+        if not read_all(lines, nl, expected, single, bool(bad0) or not case["layout"]["lead_free"], None, codecs, cuts):
+            return "line-terminator"
     if bad0:
         if any(b[0] == "iter_paragraphs" and b[1] == "str" for b in bad0):
             return "plain"
@@ -664,7 +838,7 @@ def _scope(case, para_lines, expected, single, bad0, bad1):
     for name, flags in (("layout", (True, False, False)), ("comments", (False, True, False)),
                         ("armor", (False, False, True))):
         lines, nl, cuts = assemble(case, para_lines, *flags)
-        if read_all(lines, nl, expected, single, gpg, None, codecs, cuts):
+        if read_all(lines, nl, expected, single, gpg, None, codecs, cuts, eols):
             return name + suffix
     return "combination" + suffix
 
@@ -698,6 +872,40 @@ def enum_cases():
                              {"fields": [["a" + ch + ch, ["#", []]]], "comments": [[i % 2, ""]],
                               "armor": BASIC_ARMOR if i % 2 else None}],
                    "layout": plain}
+    return gen
+
+
+def enum_terminators():
+    """Boundary values in documents whose lines end in CR LF (all of them, or every other one),
+    commented at every line boundary - also in front of the armor header line - and clearsigned."""
+    armor = dict(BASIC_ARMOR, pre=[" c: d"])
+
+    def gen():
+        for eols in (["\r\n"], ["\r\n", "\n"]):
+            for first in G.SPECIAL_FIRST:
+                for n in range(0, 2):
+                    for conts in itertools.product(G.SPECIAL_CONT, repeat=n):
+                        nlines = 1 + n + 1
+                        yield {"paras": [{"fields": [["K", [first, list(conts)]], ["Z", ["z", []]]],
+                                          "comments": [[i, " c%d: d" % i] for i in range(nlines + 1)],
+                                          "armor": armor}],
+                               "layout": dict(PLAIN_LAYOUT, eols=eols)}
+    return gen
+
+
+def enum_refused():
+    """One refused assignment at every place of a three-field paragraph: every kind of spoilt
+    value x key never assigned / assigned before / assigned afterwards x d[k] = v / d.update."""
+    fields = [["A", ["1", []]], ["B", ["", [" x", "\ty"]]], ["C", [" z ", [" ."]]]]
+
+    def gen():
+        for at in range(0, 4):
+            for key in REFUSED_KEYS:
+                for kind in REFUSED_KINDS:
+                    for via in REFUSED_VIA:
+                        yield {"paras": [{"fields": fields, "comments": [], "armor": None,
+                                          "refused": [{"at": at, "key": key, "index": at, "kind": kind, "via": via}]}],
+                               "layout": PLAIN_LAYOUT}
     return gen
 
 
@@ -752,7 +960,12 @@ armor_spec = st.fixed_dictionaries({
                      st.sampled_from([[], ["=Um8T"]])),
     "gap": st.booleans(),
     "trail": st.sampled_from(["", "", "", " ", "\t", " \t"]),
+    # comment lines directly in front of the armor header line
+    "pre": st.one_of(st.just([]), st.just([]), st.lists(G.comment_text, min_size=1, max_size=2)),
 })
+refused_spec = st.fixed_dictionaries({
+    "at": st.integers(0, 5), "key": st.sampled_from(REFUSED_KEYS), "index": st.integers(0, 4),
+    "kind": st.sampled_from(REFUSED_KINDS), "via": st.sampled_from(["setitem", "setitem", "update"])})
 
 
 @st.composite
@@ -768,7 +981,8 @@ def gen_para(draw, armor_p):
         comments = draw(st.lists(st.tuples(st.integers(0, nlines), G.comment_text), min_size=1, max_size=3))
         comments = [list(c) for c in comments]
     armor = draw(armor_spec) if draw(st.sampled_from(armor_p)) else None
-    return {"fields": fields, "comments": comments, "armor": armor}
+    refused = draw(st.one_of(st.just([]), st.just([]), st.lists(refused_spec, min_size=1, max_size=3)))
+    return {"fields": fields, "comments": comments, "armor": armor, "refused": refused}
 
 
 free_block = st.one_of(st.just([]), st.just([]), st.lists(G.comment_text, min_size=1, max_size=2))
@@ -793,6 +1007,8 @@ def gen_case(draw):
               # blank lines of the layout: all empty (half of the cases) or empty / SPACE / TAB runs
               "ws": draw(st.one_of(st.just([]), st.lists(st.sampled_from(["", "", " ", "\t", " \t", "  "]),
                                                          min_size=1, max_size=6))),
+              # line terminators, cycled over the lines of the document
+              "eols": draw(st.sampled_from([["\n"]] * 5 + [["\r\n"]] * 2 + [["\r\n", "\n"], ["\n", "\n", "\r\n"]])),
               "codecs": draw(st.sampled_from([[], [], [], ["utf-16"], ["utf-16"], ["iso-8859-15"], ["cp1252"],
                                               ["utf-32"], ["utf-8-sig"], ["utf-16-le"], ["utf-16-be", "iso-8859-1"]]))}
     return {"paras": paras, "layout": layout}
@@ -802,9 +1018,13 @@ def sources(tier):
     if tier == "quick":
         return [Enum("boundary-values", enum_cases(), _EXH),
                 Enum("blank-line-gaps", enum_gaps(), _EXH_GAPS),
+                Enum("line-terminators", enum_terminators(), _EXH_EOL),
+                Enum("refused-assignments", enum_refused(), _EXH_REFUSED),
                 Enum("aligned-big-documents", enum_aligned("quick"), _EXH_BIG),
                 Hyp("documents", gen_case(), 600, shards=10)]
     return [Enum("boundary-values", enum_cases(), _EXH),
             Enum("blank-line-gaps", enum_gaps(), _EXH_GAPS),
+            Enum("line-terminators", enum_terminators(), _EXH_EOL),
+            Enum("refused-assignments", enum_refused(), _EXH_REFUSED),
             Enum("aligned-big-documents", enum_aligned("thorough"), _EXH_BIG_T),
             Hyp("documents", gen_case(), 4000, shards=16)]
